@@ -4,11 +4,12 @@
 package parser
 
 import (
-	"bufio"
 	"bytes"
 	"regexp"
 	"sort"
 	"strings"
+
+	"github.com/coreruleset/crs-toolchain/v2/utils"
 )
 
 type inclusionLine struct {
@@ -61,8 +62,7 @@ func replaceSuffixes(inputLines *bytes.Buffer, suffixReplacements map[string]str
 	}
 
 	var sb strings.Builder
-	scanner := bufio.NewScanner(inputLines)
-	scanner.Split(bufio.ScanLines)
+	scanner := utils.NewLineScanner(inputLines)
 	skipRegex := regexp.MustCompile(`^(?:##!|\s*$)`)
 	for scanner.Scan() {
 		entry := scanner.Text()
@@ -85,8 +85,7 @@ func removeExclusions(parser *Parser, excludeFileNames []string, includeMap map[
 	for _, fileName := range excludeFileNames {
 		logger.Debug().Msgf("Processing exclusions from %s", fileName)
 		excludeContent, _ := parseFile(parser, fileName, definitions)
-		scanner := bufio.NewScanner(excludeContent)
-		scanner.Split(bufio.ScanLines)
+		scanner := utils.NewLineScanner(excludeContent)
 		for scanner.Scan() {
 			exclusion := scanner.Text()
 			delete(includeMap, exclusion)
@@ -97,8 +96,7 @@ func removeExclusions(parser *Parser, excludeFileNames []string, includeMap map[
 
 func buildinclusionLineMap(parser *Parser, includeFileName string) (inclusionLineMap, map[string]string) {
 	includeContent, definitions := parseFile(parser, includeFileName, nil)
-	includeScanner := bufio.NewScanner(includeContent)
-	includeScanner.Split(bufio.ScanLines)
+	includeScanner := utils.NewLineScanner(includeContent)
 	includeMap := make(inclusionLineMap, 100)
 	index := 0
 	for includeScanner.Scan() {
